@@ -191,8 +191,11 @@ class BundleFlattener(ElabPass):
             entry = BundlePortEntry(module, bundle_inst.name)
             THE_CACHE.flat_bundle_ports[entry] = flat
 
-        # Replace connections to any connected instances
+        # Replace connections to any connected instances of `module`.
+        # Instances which never joined it, such as the template consumed by `n * Instance`, are not part of the design.
         for portref in list(bundle_inst._connected_ports):
+            if portref.inst._parent_module is not module:
+                continue
             self.replace_bundle_conn(
                 inst=portref.inst, portname=portref.portname, flat=flat
             )
@@ -441,6 +444,8 @@ class BundleFlattener(ElabPass):
 
         if isinstance(resolved, BundleScope):
             for connected_port in list(bref._connected_ports):
+                if connected_port.inst._parent_module is not root._parent_module:
+                    continue  # Not an Instance of the Module being flattened
                 self.replace_bundle_conn(
                     inst=connected_port.inst,
                     portname=connected_port.portname,
